@@ -52,7 +52,11 @@ static uint64_t nd (void) {
 }
 #define H_ASSUME(c) __CPROVER_assume (c)
 #define H_ASSERT(c, msg) __CPROVER_assert ((c), "PROP " msg)
+#ifdef H_NO_WITNESS /* diagnostic builds only */
+#define H_WITNESS(name) ((void) 0)
+#else
 #define H_WITNESS(name) __CPROVER_assert (0, "WITNESS " name)
+#endif
 #define H_CBMC 1
 #endif
 
@@ -62,6 +66,9 @@ static uint64_t nd (void) {
    see DESIGN.md section 1).  Word loops when everything is 8-aligned, byte loops otherwise.
    memcpy additionally asserts the C precondition that the regions do not overlap. */
 void *memcpy (void *d, const void *s, size_t n) {
+#ifdef H_MEMCPY_HOOK
+  if (H_MEMCPY_HOOK (d, s, n)) return d; /* harness observer of every copy (C17: writes into code memory); non-zero = handled */
+#endif
   __CPROVER_assert (n == 0 || __CPROVER_POINTER_OBJECT (d) != __CPROVER_POINTER_OBJECT (s)
                       || (const char *) d + n <= (const char *) s || (const char *) s + n <= (const char *) d,
                     "PROP memcpy source and destination do not overlap");
@@ -72,7 +79,7 @@ void *memcpy (void *d, const void *s, size_t n) {
   return d;
 }
 void *memmove (void *d, const void *s, size_t n) {
-  if ((const char *) d <= (const char *) s || __CPROVER_POINTER_OBJECT (d) != __CPROVER_POINTER_OBJECT (s))
+  if (__CPROVER_POINTER_OBJECT (d) != __CPROVER_POINTER_OBJECT (s) || (const char *) d <= (const char *) s)
     for (size_t i = 0; i < n; i++) ((char *) d)[i] = ((const char *) s)[i];
   else
     for (size_t i = n; i > 0; i--) ((char *) d)[i - 1] = ((const char *) s)[i - 1];
@@ -109,6 +116,11 @@ int memcmp (const void *a, const void *b, size_t n) {
   }
   return 0;
 }
+#endif
+
+#if !H_CBMC && defined(H_MEMCPY_HOOK)
+static inline void *h_memcpy_observed (void *d, const void *s, size_t n) { if (H_MEMCPY_HOOK (d, s, n)) return d; return memcpy (d, s, n); }
+#define memcpy(d, s, n) h_memcpy_observed (d, s, n)
 #endif
 
 static inline uint64_t nd_below (uint64_t n) { /* value in [0,n) */
